@@ -89,4 +89,22 @@ theorem compressAll_sinks (l : Lib) (s : CState) (ms : List Bytes) (hp : s.pendi
     · cases hd : s.dst <;> simp [cstep, hd]
     · simp [cstep]
 
+theorem writeChunks_eq (l : Lib) (s : CState) (cs : List Bytes) :
+    writeChunks l s cs = { s with pending := s.pending ++ cs.flatten } := by
+  induction cs generalizing s with
+  | nil => simp [writeChunks]
+  | cons c t ih =>
+    have : writeChunks l s (c :: t) = writeChunks l (cstep l s (.write c)) t := rfl
+    rw [this, ih]
+    simp [cstep, List.append_assoc]
+
+theorem compressVia_eq_compressAll (l : Lib) (s : CState) (css : List (List Bytes)) :
+    compressVia l s css = compressAll l s (css.map List.flatten) := by
+  induction css generalizing s with
+  | nil => rfl
+  | cons cs t ih =>
+    simp only [compressVia, compressAll, List.map_cons]
+    rw [ih, writeChunks_eq]
+    simp [cstep]
+
 end ConfModel.Compression
